@@ -28,10 +28,10 @@ theorem invoke_eq (f : Callable) (fq : TyQ) (a1 : Option Arg) (n : Nat) :
     Inv.Model.invoke f fq a1 n = Inv.Spec.invoke f fq a1 n := by
   unfold Inv.Model.invoke Inv.Model.invokeWith Inv.Spec.invoke
   cases f with
-  | fn k ne => cases a1 <;> simp
+  | fn k ne => rfl
   | fobj ops =>
     obtain ⟨h1, h2⟩ := forward_preserves_category fq
-    cases a1 <;> simp [h1, h2]
+    simp only [h1, h2]
   | pmf m ne ret arity =>
     cases a1 with
     | none => rfl
